@@ -99,13 +99,54 @@ def check_direct(ctx, q, cf, cb, base, seq, nc):
         ctx.sample(dict(q=q, cutoffs=(cf, cb), base=base, expected=exp, seq=seq, nextseq_cutoff=nc, nextseq_stop=exp_ns))
 
 
+def check_stream(ctx, rng):
+    """One trimmer object of each kind over a stream of reads (as in a real run): every read must be trimmed by its own
+    qualities and bases, whatever the object saw before; the removed-bases counters must add up. Quality strings repeat."""
+    from cutadapt.modifiers import QualityTrimmer, NextseqQualityTrimmer, ModificationInfo
+    from dnaio import SequenceRecord
+
+    base = rng.choice([33, 64])
+    cf, cb, nc = rng.choice([0, 5, 10]), rng.choice([5, 10, 20]), rng.choice([0, 5, 10, 20])
+    L = rng.randint(1, 14)
+    pool = [[rng.choice([2, 12, 30, 40]) for _ in range(L)] for _ in range(rng.randint(1, 3))]
+    qt, nt = QualityTrimmer(cf, cb, base), NextseqQualityTrimmer(nc, base)
+    tot_q = tot_n = 0
+    reads = []
+    for i in range(rng.randint(4, 14)):
+        q = rng.choice(pool)
+        seq = "".join(rng.choice("ACGTGGG") for _ in range(L))
+        reads.append((seq, q))
+        quals = "".join(chr(x + base) for x in q)
+        rec = SequenceRecord(f"r{i}", seq, quals)
+        a, b = R.qtrim(q, cf, cb)
+        stop = R.nextseq_trim(seq, q, nc)
+        tot_q += L - (b - a)
+        tot_n += L - stop
+        o1 = qt(rec, ModificationInfo(rec))
+        o2 = nt(rec, ModificationInfo(rec))
+        case = dict(stream=True, reads=reads[:], cf=cf, cb=cb, nc=nc, base=base)
+        if (o1.sequence, o1.qualities) != (seq[a:b], quals[a:b]):
+            ctx.violation("qtrim-stream", f"read {i} of a stream ({seq!r}, q={q}): QualityTrimmer({cf},{cb}) gave {o1.sequence!r}, expected {seq[a:b]!r}; earlier reads {reads[:-1][-2:]}", case)
+        if (o2.sequence, o2.qualities) != (seq[:stop], quals[:stop]):
+            ctx.violation("nextseq-stream", f"read {i} of a stream ({seq!r}, q={q}): NextseqQualityTrimmer({nc}) gave {o2.sequence!r}, expected {seq[:stop]!r}; earlier reads {reads[:-1][-2:]}", case)
+    if qt.trimmed_bases != tot_q or nt.trimmed_bases != tot_n:
+        ctx.violation("stream-accounting", f"trimmed_bases {qt.trimmed_bases}/{nt.trimmed_bases} after the stream, removed {tot_q}/{tot_n}", case)
+    ctx.case(("stream", str(reads), cf, cb, nc, base) if (tot_q or tot_n) else None)
+    ctx.count("stream_reads", len(reads))
+
+
 def cli_case(ctx, rng, k):
     """-q / --nextseq-trim at the command line: records and JSON quality_trimmed."""
     base = rng.choice([33, 64])
     recs = []
+    binned = rng.random() < 0.3
+    pool = {}
     for i in range(rng.randint(1, 30)):
-        n = rng.randint(0, 40)
+        n = rng.randint(0, 40) if not binned else rng.choice([8, 12, 12, 20])
         q = [max(0, min(x, 126 - base)) for x in gen_q(rng, n, [10, 20])]
+        if binned:
+            # instruments with binned qualities: many reads carry the very same quality string
+            q = pool.setdefault((n, rng.randint(0, 1)), q)
         s = "".join(rng.choice("ACGTGGN") for _ in range(n))
         recs.append((f"r{i}", s, "".join(chr(x + base) for x in q)))
     mode = rng.choice(["q1", "q2", "nextseq", "paired", "paired", "both", "both"])
@@ -201,6 +242,8 @@ def run_shard(ctx):
         seq = "".join(rng.choice("ACGTGGGNg" if rng.random() < 0.7 else "ACGT") for _ in range(L))
         nc = rng.choice([0, 1, 5, 10, 20]) if rng.random() < 0.98 else rng.choice([10 ** 9, 2147483647])
         check_direct(ctx, q, cf, cb, base, seq, nc)
+        if i % 10 == 0:
+            check_stream(ctx, rng)
         if asan and i % 50 == 0:
             ctx.san_check(lambda: dict(q=q, cf=cf, cb=cb, base=base, seq=seq, nc=nc))
     if asan:
@@ -226,6 +269,24 @@ def run_shard(ctx):
 def replay(ctx, case):
     if case.get("cli"):
         ctx.mark_inconclusive("CLI cases are replayed by re-running the check with the same seed")
+        return
+    if case.get("stream"):
+        from cutadapt.modifiers import QualityTrimmer, NextseqQualityTrimmer, ModificationInfo
+        from dnaio import SequenceRecord
+
+        base = case["base"]
+        qt, nt = QualityTrimmer(case["cf"], case["cb"], base), NextseqQualityTrimmer(case["nc"], base)
+        ctx.case(("stream-replay", str(case["reads"])))
+        for i, (seq, q) in enumerate(case["reads"]):
+            quals = "".join(chr(x + base) for x in q)
+            rec = SequenceRecord(f"r{i}", seq, quals)
+            a, b = R.qtrim(q, case["cf"], case["cb"])
+            stop = R.nextseq_trim(seq, q, case["nc"])
+            o1, o2 = qt(rec, ModificationInfo(rec)), nt(rec, ModificationInfo(rec))
+            if o1.sequence != seq[a:b]:
+                ctx.violation("qtrim-stream", f"read {i}: {o1.sequence!r} != {seq[a:b]!r}", case)
+            if o2.sequence != seq[:stop]:
+                ctx.violation("nextseq-stream", f"read {i}: {o2.sequence!r} != {seq[:stop]!r}", case)
         return
     check_direct(ctx, case["q"], case["cf"], case["cb"], case["base"], case["seq"], case["nc"])
     ctx.san_check(case)
